@@ -846,6 +846,227 @@ theorem C14_fetch_finish_is_atomic (c : Cfg) (s : ConcState) (i : Nat) (o : Op) 
   simp [runEv, evStep, pendGet]
 
 
+/-! ## stored hashes carry their parameters; verification reads all of them from the row
+
+`hashVerify procs p st` derives the key again from `p` with the parameters and the salt of the row; the stored key is the
+derivation from the password the row was made of.  So: verification succeeds iff the password AND the parameters as stored
+reproduce the stored key — whatever the options or the environment (`procs`) of the verifying process are — and a
+verifier that derived with any other parameter value would refuse the current password of the account. -/
+
+theorem C14_verify_iff_reproduces_stored_key (procs : Nat) (p : Pw) (st : Stored) :
+    hashVerify procs p st = true ↔ sameKey st.scheme ⟨st.params, st.salt, p⟩ st.keyOf = true := by
+  simp [hashVerify]
+
+theorem C14_verify_ignores_environment (procs procs' : Nat) (p : Pw) (st : Stored) :
+    hashVerify procs p st = hashVerify procs' p st := rfl
+
+theorem C14_verify_iff_password (procs : Nat) (p : Pw) (st : Stored) :
+    hashVerify procs p st = pwEq st.scheme p st.pw := by
+  simp [hashVerify, sameKey, Stored.keyOf]
+
+/-- same password, same salt, another value of ANY parameter (e.g. the lane count capped at the number of CPUs): another key. -/
+theorem C14_other_parameters_other_key (s : Scheme) (P P' : Params) (salt : List Nat) (p q : Pw) (h : P ≠ P') :
+    sameKey s ⟨P, salt, p⟩ ⟨P', salt, q⟩ = false := by
+  simp [sameKey, h]
+
+theorem C14_same_parameters_key_iff_password (s : Scheme) (P : Params) (salt : List Nat) (p q : Pw) :
+    sameKey s ⟨P, salt, p⟩ ⟨P, salt, q⟩ = pwEq s p q := by
+  simp [sameKey]
+
+/-- what `HashCompute` stores: scheme, password and salt of the call. -/
+theorem hashCompute_ok (s : Scheme) (o : HashOpts) (salt : List Nat) (q : Pw) (st : Stored)
+    (h : hashCompute s o salt q = .ok st) : st.scheme = s ∧ st.pw = q ∧ st.salt = salt := by
+  cases s <;> simp only [hashCompute] at h
+  · split at h
+    · cases h
+    · split at h
+      · cases h
+      · cases h; exact ⟨rfl, rfl, rfl⟩
+  · split at h
+    · cases h
+    · cases h; exact ⟨rfl, rfl, rfl⟩
+  · cases h; exact ⟨rfl, rfl, rfl⟩
+
+/-- … and the parameters of the call's options (argon2: time, memory, lanes — all three). -/
+theorem C14_argon2_parameters_stored (o : HashOpts) (salt : List Nat) (q : Pw) (st : Stored)
+    (h : hashCompute .argon2 o salt q = .ok st) : st.params = [o.argonTime, o.argonMemory, o.argonThreads] := by
+  simp only [hashCompute] at h
+  split at h
+  · cases h
+  · cases h; rfl
+
+theorem hashCompute_ok_hashable (s : Scheme) (o : HashOpts) (salt : List Nat) (q : Pw) (st : Stored)
+    (h : hashCompute s o salt q = .ok st) : hashable s q = true := by
+  cases s <;> simp only [hashCompute] at h <;> simp only [hashable]
+  · split at h
+    · cases h
+    · simp; omega
+
+/-- a row made by `HashCompute` with ANY accepted options (cost, time, memory, lanes) and any salt is verified, in a process
+with any number of CPUs, exactly by the passwords equal (bcrypt: key-equal) to the one it was made of. -/
+theorem C14_verify_computed_row (s : Scheme) (o : HashOpts) (salt : List Nat) (q p : Pw) (st : Stored) (procs : Nat)
+    (h : hashCompute s o salt q = .ok st) : hashVerify procs p st = pwEq s p q := by
+  obtain ⟨h1, h2, _⟩ := hashCompute_ok s o salt q st h
+  rw [C14_verify_iff_password, h1, h2]
+
+/-! ### the table with full rows refines the table of (scheme, password) rows -/
+
+theorem CTbl.abs_set (t : CTbl) (k : Name) (st : Stored) : (t.set k st).abs = t.abs.set k st.abs := by
+  funext k'; simp only [CTbl.abs, CTbl.set, Tbl.set]; split <;> simp
+
+theorem CTbl.abs_del (t : CTbl) (k : Name) : (t.del k).abs = t.abs.del k := by
+  funext k'; simp only [CTbl.abs, CTbl.del, Tbl.del]; split <;> simp
+
+theorem ctableAuthPlain_abs (c : Cfg) (procs : Nat) (t : CTbl) (u : Name) (p : Pw) :
+    ctableAuthPlain c procs t u p = tableAuthPlain c t.abs u p := by
+  simp only [ctableAuthPlain, tableAuthPlain, CTbl.abs]
+  cases c.norm u with
+  | none => rfl
+  | some k =>
+    dsimp only
+    cases t k with
+    | none => rfl
+    | some st => simp [C14_verify_iff_password, Stored.abs]
+
+theorem csaslAuthPlain_abs (c : Cfg) (procs : Nat) (t : CTbl) (u : Name) (p : Pw) :
+    csaslAuthPlain c procs t u p = saslAuthPlain c t.abs u p := by
+  simp only [csaslAuthPlain, saslAuthPlain]
+  cases usernameForAuth c u with
+  | none => rfl
+  | some m => exact ctableAuthPlain_abs c procs t m p
+
+theorem cplain_abs (c : Cfg) (procs : Nat) (t : CTbl) (a u : Name) (p : Pw) :
+    cplain c procs t a u p = plain c t.abs a u p := by
+  simp only [cplain, plain, csaslAuthPlain_abs]
+
+theorem clogin_abs (c : Cfg) (procs : Nat) (t : CTbl) (u : Name) (p : Pw) :
+    clogin c procs t u p = login c t.abs u p := by
+  simp only [clogin, login, csaslAuthPlain_abs]
+
+/-- table after the abstract operations `ops`, from `t`. -/
+def tableFrom (c : Cfg) (t : Tbl) (ops : List Op) : Tbl := ops.foldl (fun t op => (step c t op).1) t
+
+theorem tableFrom_append (c : Cfg) (t : Tbl) (a b : List Op) :
+    tableFrom c t (a ++ b) = tableFrom c (tableFrom c t a) b := by
+  simp [tableFrom, List.foldl_append]
+
+/-- ONE operation on full rows, any options / salt / number of CPUs: the abstraction of the new table is the abstract
+table after the operations it stands for. -/
+theorem C14_cstep_table (c : Cfg) (procs : Nat) (t : CTbl) (op : COp) :
+    (cstep c procs t op).1.abs = tableFrom c t.abs op.forget := by
+  have habs : ∀ k, t.abs k = (t k).map Stored.abs := fun _ => rfl
+  cases op with
+  | create u p s o salt =>
+    cases s with
+    | none => simp [cstep, COp.forget, tableFrom, step, createUserHash]
+    | some s =>
+      simp only [cstep, COp.forget]
+      cases hc : hashCompute s o salt p with
+      | ok st =>
+        obtain ⟨h1, h2, _⟩ := hashCompute_ok s o salt p st hc
+        have hh := hashCompute_ok_hashable s o salt p st hc
+        simp only [tableFrom, List.foldl, step, createUserHash]
+        cases hn : c.norm u with
+        | none => rfl
+        | some k =>
+          cases hk : t k with
+          | some v => simp [habs, hk]
+          | none => simp [habs, hk, hh, CTbl.abs_set, Stored.abs, h1, h2]
+      | err =>
+        cases hn : c.norm u with
+        | none => rfl
+        | some k => dsimp only; cases hk : t k <;> rfl
+      | panic =>
+        cases hn : c.norm u with
+        | none => rfl
+        | some k => dsimp only; cases hk : t k <;> rfl
+  | setPw u p salt =>
+    simp only [cstep, COp.forget, tableFrom, List.foldl, step, setUserPassword]
+    cases hn : c.norm u with
+    | none => rfl
+    | some k =>
+      by_cases hl : p.length > 72
+      · have : hashable .bcrypt p = false := by simp [hashable]; omega
+        simp [hashCompute, hl, this]
+      · have : hashable .bcrypt p = true := by simp [hashable]; omega
+        simp [hashCompute, hl, this, bcryptEffCost, CTbl.abs_set, Stored.abs]
+  | put u p s o salt =>
+    simp only [cstep, COp.forget]
+    cases hc : hashCompute s o salt p with
+    | ok st =>
+      obtain ⟨h1, h2, _⟩ := hashCompute_ok s o salt p st hc
+      have hh := hashCompute_ok_hashable s o salt p st hc
+      simp only [tableFrom, List.foldl, step, deleteUser, createUserHash]
+      cases hn : c.norm u with
+      | none => rfl
+      | some k =>
+        simp only [Tbl.del, hh, CTbl.abs_set, Stored.abs, h1, h2, if_true]
+        funext k'
+        simp only [Tbl.set]
+        split
+        · rfl
+        · simp_all [Tbl.del, CTbl.abs]
+    | err => rfl
+    | panic => rfl
+  | delete u =>
+    simp only [cstep, COp.forget, tableFrom, List.foldl, step, deleteUser]
+    cases hn : c.norm u with
+    | none => rfl
+    | some k => simp [CTbl.abs_del]
+  | plain a u p => rfl
+  | login u p => rfl
+  | direct u p => rfl
+
+/-- histories of ANY length on full rows: the credentials table, read as (scheme, password) rows, is the abstract table
+after the operations the history stands for — so every theorem above about `tableAfter` holds for accounts created and
+re-hashed with any parameters, verified with any number of CPUs. -/
+theorem C14_params_refine (c : Cfg) (procs : Nat) (h : List COp) :
+    (ctableAfter c procs h).abs = tableAfter c (h.flatMap COp.forget) := by
+  have key : ∀ (h : List COp) (t : CTbl),
+      (h.foldl (fun t op => (cstep c procs t op).1) t).abs = tableFrom c t.abs (h.flatMap COp.forget) := by
+    intro h
+    induction h with
+    | nil => intro t; rfl
+    | cons op rest ih =>
+      intro t
+      rw [List.foldl_cons, ih, C14_cstep_table, List.flatMap_cons, tableFrom_append]
+  exact key h CTbl.empty
+
+/-- the verdicts on full rows are the abstract verdicts on the abstraction of the table. -/
+theorem C14_cstep_login_verdicts (c : Cfg) (procs : Nat) (t : CTbl) (a u : Name) (p : Pw) :
+    (cstep c procs t (.plain a u p)).2 = .out (step c t.abs (.plain a u p)).2 ∧
+    (cstep c procs t (.login u p)).2 = .out (step c t.abs (.login u p)).2 ∧
+    (cstep c procs t (.direct u p)).2 = .out (step c t.abs (.direct u p)).2 := by
+  simp [cstep, step, cplain_abs, clogin_abs, ctableAuthPlain_abs]
+
+/-- any history on full rows (any options, salts, CPUs), then a login: it succeeds iff the supplied password is the one most
+recently set for the account the name resolves to. -/
+theorem C14_params_login_iff_current_password (c : Cfg) (procs : Nat) (h : List COp) (u : Name) (p : Pw)
+    (hl : c.loginEnabled = true) :
+    clogin c procs (ctableAfter c procs h) u p = .ok u ↔
+      ∃ k s q, resolve c u = some k ∧ current c (h.flatMap COp.forget).reverse k = some (s, q) ∧ pwEq s p q = true := by
+  rw [clogin_abs, C14_params_refine, C14_login_ok_iff]
+  simp [hl]
+
+/-- the environment of the verifying process is irrelevant for whole runs. -/
+theorem C14_run_ignores_environment (c : Cfg) (procs procs' : Nat) (t : CTbl) (h : List COp) :
+    crun c procs t h = crun c procs' t h := by
+  induction h generalizing t with
+  | nil => rfl
+  | cons op rest ih =>
+    have : ∀ t, cstep c procs t op = cstep c procs' t op := by
+      intro t; cases op <;> rfl
+    simp only [crun, this, ih]
+
+/-- overlapping logins on full rows: an event's effect is `cstep` on the table at that moment (ties `crunEv`, which the
+driver prints, to `cstep`). -/
+theorem C14_cevStep_op (c : Cfg) (procs : Nat) (s : CConcState) (o : COp) :
+    (cevStep c procs s (.op o)).2 = .out (cstep c procs s.tbl o).2 ∧
+    (cevStep c procs s (.op o)).1.tbl = (cstep c procs s.tbl o).1 ∧
+    (cevStep c procs s (.fetch i o)).1.tbl = s.tbl ∧
+    crunEv c procs s [.fetch i o, .finish i] = [.begun, .out (cstep c procs s.tbl o).2] := by
+  simp [cevStep, crunEv, cpendGet]
+
 /-! ## non-vacuity -/
 
 section Examples
@@ -913,6 +1134,26 @@ example : runEv exCfg ⟨Tbl.empty, []⟩
     [.out (.mgmt .ok), .begun, .begun, .out (.mgmt .ok), .begun, .begun, .begun,
      .out (.auth (.ok [1])), .out (.auth .fail), .out (.auth .fail), .out (.auth (.ok [1])), .noLogin] := by decide
 example : ∀ e ∈ [Ev.fetch 4 (.login [1] [5]), .op (.setPw [2] [8]), .finish 4], ofLogin 1 e = false := by decide
+
+-- stored hashes with parameters: an account created with argon2 (time 2, 64 KiB, 17 lanes), re-hashed elsewhere with 255 lanes,
+-- verified in a process with 1 CPU / 16 CPUs: the current password is accepted, another one refused; the row says the lanes asked for
+def exOpts : HashOpts := { argonTime := 2, argonMemory := 64, argonThreads := 17 }
+def exCHist : List COp :=
+  [.create [2] [7] (some .argon2) exOpts [0], .put [2] [7] .argon2 { exOpts with argonThreads := 255 } [1], .create [2] [9] (some .bcrypt) {} [2]]
+example : (ctableAfter exCfg 1 exCHist [2]).map (·.params) = some [2, 64, 255] := by decide
+example : crun exCfg 1 (ctableAfter exCfg 1 exCHist) [.login [1] [7], .login [1] [9], .direct [2] [7]] =
+    [.out (.auth (.ok [1])), .out (.auth .fail), .out (.direct true)] := by decide
+example : crun exCfg 16 (ctableAfter exCfg 16 exCHist) [.login [1] [7]] = crun exCfg 1 (ctableAfter exCfg 1 exCHist) [.login [1] [7]] := by
+  decide
+example : exCHist.flatMap COp.forget =
+    [.create [2] [7] (some .argon2), .delete [2], .create [2] [7] (some .argon2), .create [2] [9] (some .bcrypt)] := by rfl
+-- a verifier that derived with the lane count capped at 1 CPU would not reproduce the stored key
+example : sameKey .argon2 ⟨[2, 64, 1], [0], [7]⟩ ⟨[2, 64, 17], [0], [7]⟩ = false := by decide
+-- the hypotheses of C14_verify_computed_row / C14_argon2_parameters_stored are satisfiable; refused and panicking options
+example : hashCompute .argon2 exOpts [0] [7] = .ok ⟨.argon2, [2, 64, 17], [0], [7]⟩ := by decide
+example : hashCompute .argon2 { exOpts with argonThreads := 0 } [0] [7] = .panic ∧ hashCompute .bcrypt { bcryptCost := 32 } [0] [7] = .err ∧
+    hashCompute .bcrypt { bcryptCost := 3 } [0] [7] = .ok ⟨.bcrypt, [10], [0], [7]⟩ := by decide
+example : (cstep exCfg 4 CTbl.empty (.create [2] [7] (some .argon2) { exOpts with argonTime := 0 } [0])).2 = .panic := by decide
 
 end Examples
 
